@@ -479,9 +479,13 @@ class DiscriminatedUnionUnpackerBuilder(AbstractUnpackerBuilder):
             with lines.indent(f"for variant in {variants}:"):
                 if spec.builder.is_nailed:
                     # a variant must not use the method inherited from
-                    # an already compiled parent class
+                    # an already compiled parent class; it is tried below
                     self._add_build_variant_unpacker(
-                        spec, lines, variant_method_name, variant_method_call
+                        spec,
+                        lines,
+                        variant_method_name,
+                        variant_method_call,
+                        try_variant=False,
                     )
                 with lines.indent("try:"):
                     if spec.builder.is_nailed:
@@ -525,6 +529,7 @@ class DiscriminatedUnionUnpackerBuilder(AbstractUnpackerBuilder):
         lines: CodeLines,
         variant_method_name: str,
         variant_method_call: str,
+        try_variant: bool = True,
     ) -> None:
         if spec.builder.is_nailed:
             spec.builder.ensure_object_imported(get_class_that_defines_method)
@@ -541,7 +546,7 @@ class DiscriminatedUnionUnpackerBuilder(AbstractUnpackerBuilder):
                     "default_dialect=_default_dialect)"
                     ".add_unpack_method()"
                 )
-                if self.discriminator.field is None:
+                if self.discriminator.field is None and try_variant:
                     with lines.indent("try:"):
                         lines.append(f"return variant.{variant_method_call}")
                     lines.append("except Exception: pass")
